@@ -20,7 +20,7 @@ open Hv.Cap
 /-- The full-strength statement. -/
 structure Holds (cfg : Cfg) : Prop where
   /-- `cap_inv` -/
-  capInv : ∀ recs max as s, recs.count true ≤ max → run cfg (init recs max) as = some s → matching s ≤ max
+  capInv : ∀ recs present max as s, recs.count true ≤ max → run cfg (initP recs present max) as = some s → matching s ≤ max
   /-- `four_cell`: the budget is decremented iff the patch moves the record from not-matching to
       matching (and there is budget); exactly that cell is rejected when the budget is 0 -/
   fourCell : ∀ budget pre post,
@@ -28,9 +28,9 @@ structure Holds (cfg : Cfg) : Prop where
       ((fourCell budget pre post).2 = none ↔ (pre = false ∧ post = true ∧ budget = 0)) ∧
       (∀ v, (fourCell budget pre post).2 = some v → v = post)
 
-theorem max_const (cfg : Cfg) (recs : List Bool) (max : Nat) (as : List Act) (s : St)
-    (h : run cfg (init recs max) as = some s) : s.max = max := by
-  refine LTS.inv_run (step cfg) (fun s => s.max = max) ?_ (init recs max) as s rfl h
+theorem max_const (cfg : Cfg) (recs present : List Bool) (max : Nat) (as : List Act) (s : St)
+    (h : run cfg (initP recs present max) as = some s) : s.max = max := by
+  refine LTS.inv_run (step cfg) (fun s => s.max = max) ?_ (initP recs present max) as s rfl h
   intro s a s' hm hs
   cases a <;> simp only [step] at hs <;> (repeat' split at hs) <;> simp at hs <;>
     first
@@ -49,12 +49,12 @@ theorem four_cell (budget : Nat) (pre post : Bool) :
 
 /-- `cap_inv`: with the count taken under capMu the number of matching records never exceeds
     the cap, for all contents, caps, batches and interleavings. -/
-theorem cap_inv (recs : List Bool) (max : Nat) (as : List Act) (s : St)
-    (h0 : recs.count true ≤ max) (h : run good (init recs max) as = some s) : matching s ≤ max := by
+theorem cap_inv (recs present : List Bool) (max : Nat) (as : List Act) (s : St)
+    (h0 : recs.count true ≤ max) (h : run good (initP recs present max) as = some s) : matching s ≤ max := by
   have hi : Inv s := LTS.inv_run (step good) Inv (fun s a s' hi hs => inv_step s a s' hi hs)
-    (init recs max) as s (inv_init recs max h0) h
+    (initP recs present max) as s (inv_initP recs present max h0) h
   have := hi.bound
-  rw [max_const good recs max as s h] at this
+  rw [max_const good recs present max as s h] at this
   omega
 
 theorem holds_good : Holds good := ⟨cap_inv, four_cell⟩
@@ -67,31 +67,70 @@ example : (run good (init [true, false, false, false] 2)
     (fun s => (s.recs, (s.batch 0).rejected, (s.batch 1).rejected, matching s)) =
     some ([false, true, false, false], 1, 1, 1) := by decide
 
-/-! ### The code as it is: count first, then lock -/
+/-! ### Defective shapes: closed counterexamples -/
 
-def current : Cfg := { countAfterLock := false }
-
-/-- two batches, cap 1, both see 0 -/
+/-- count first, then lock: two batches, cap 1, both see 0 -/
 def witness : List Act :=
   [.submit 0 [(0, true)], .submit 1 [(1, true)], .first 0, .first 1,
    .second 0, .patch 0, .unlock 0, .second 1, .patch 1, .unlock 1]
 
-theorem witness_overshoots :
-    (run current (init [false, false] 1) witness).map (fun s => (matching s, (s.batch 0).rejected, (s.batch 1).rejected)) =
-    some (2, 0, 0) := by decide
+theorem witness_overshoots (c e : Bool) :
+    (run { countAfterLock := false, createPreFalse := c, expiredHoldsCapMu := e } (init [false, false] 1) witness).map
+      (fun s => (matching s, (s.batch 0).rejected, (s.batch 1).rejected)) = some (2, 0, 0) := by
+  cases c <;> cases e <;> decide
 
-theorem refutes_current : ¬ Holds current := by
+theorem refutes_countFirst (c e : Bool) : ¬ Holds { countAfterLock := false, createPreFalse := c, expiredHoldsCapMu := e } := by
   intro h
-  cases hs : run current (init [false, false] 1) witness with
-  | none => have := witness_overshoots; simp [hs] at this
+  cases hs : run { countAfterLock := false, createPreFalse := c, expiredHoldsCapMu := e } (init [false, false] 1) witness with
+  | none => have := witness_overshoots c e; simp [hs] at this
   | some s =>
-    have hw := witness_overshoots
+    have hw := witness_overshoots c e
     simp [hs] at hw
-    have := h.capInv [false, false] 1 witness s (by decide) hs
+    have := h.capInv [false, false] [true, true] 1 witness s (by decide) hs
     omega
 
-/-- `_partial`: a single batch at a time (no other batch between its count and its unlock)
-    respects the cap also with the count before the lock; stated as: the four-cell rule. -/
+/-- the pre-state of a create taken from the seed: one batch, cap 1, two absent keys, a seed that
+    matches the filter — both creates look like (yes, yes), no budget is spent, two records match -/
+def witnessCreate : List Act :=
+  [.submitCreate 0 [(0, true), (1, true)] true, .first 0, .second 0, .patch 0, .patch 0, .unlock 0]
+
+theorem witness_create_overshoots (a e : Bool) :
+    (run { countAfterLock := a, createPreFalse := false, expiredHoldsCapMu := e } (initP [false, false] [false, false] 1) witnessCreate).map
+      (fun s => (matching s, (s.batch 0).rejected)) = some (2, 0) := by
+  cases a <;> cases e <;> decide
+
+theorem refutes_createFromSeed (a e : Bool) : ¬ Holds { countAfterLock := a, createPreFalse := false, expiredHoldsCapMu := e } := by
+  intro h
+  cases hs : run { countAfterLock := a, createPreFalse := false, expiredHoldsCapMu := e } (initP [false, false] [false, false] 1) witnessCreate with
+  | none => have := witness_create_overshoots a e; simp [hs] at this
+  | some s =>
+    have hw := witness_create_overshoots a e
+    simp [hs] at hw
+    have := h.capInv [false, false] [false, false] 1 witnessCreate s (by decide) hs
+    omega
+
+/-- PatchExpired releasing capMu after its select step: cap 2, four expired candidates; A selects
+    two and unlocks, B counts 0 and selects the other two; four records match -/
+def witnessExpired : List Act :=
+  [.submitExpired 0 [0, 1, 2, 3], .submitExpired 1 [2, 3, 0, 1], .first 0, .second 0, .unlockEarly 0,
+   .first 1, .second 1, .patch 0, .patch 0, .patch 1, .patch 1, .unlock 0, .unlock 1]
+
+theorem witness_expired_overshoots (a c : Bool) :
+    (run { countAfterLock := a, createPreFalse := c, expiredHoldsCapMu := false } (init [false, false, false, false] 2) witnessExpired).map
+      (fun s => matching s) = some 4 := by
+  cases a <;> cases c <;> decide
+
+theorem refutes_expiredEarlyUnlock (a c : Bool) : ¬ Holds { countAfterLock := a, createPreFalse := c, expiredHoldsCapMu := false } := by
+  intro h
+  cases hs : run { countAfterLock := a, createPreFalse := c, expiredHoldsCapMu := false } (init [false, false, false, false] 2) witnessExpired with
+  | none => have := witness_expired_overshoots a c; simp [hs] at this
+  | some s =>
+    have hw := witness_expired_overshoots a c
+    simp [hs] at hw
+    have := h.capInv [false, false, false, false] [true, true, true, true] 2 witnessExpired s (by decide) hs
+    omega
+
+/-- `_partial`: the four-cell rule holds whatever the order of count and lock. -/
 theorem holds_partial : ∀ budget pre post,
     (fourCell budget pre post).1 = (if !pre && post && decide (0 < budget) then budget - 1 else budget) ∧
     ((fourCell budget pre post).2 = none ↔ (pre = false ∧ post = true ∧ budget = 0)) ∧
@@ -107,33 +146,62 @@ structure Facts where
   /-- `budgetLeft = bodyCapMax - currentMatching`, clamped at 0 -/
   budgetFromCount : Tri
   /-- PatchFields: `if !preMatched && postMatched { if budget <= 0 { return CapExceeded }; budget-- }`,
-      the only decrement, before the body is written; `preMatched` is false on create -/
+      the only decrement, before the body is written -/
   fourCellNoYes : Tri
-  /-- PatchExpired takes `s.capMu` before its count+selection when a cap is present -/
+  /-- PatchFields: `preMatched` stays false on a create (`if !isCreate { preMatched = … }`) -/
+  createPreFalse : Tri
+  /-- PatchExpired takes `s.capMu` before its count+select when a cap is present … -/
   patchExpiredLocksFirst : Tri
-  /-- ShiftMatching counts and selects under one `b.mu.Lock()` -/
+  /-- … and holds it to the end of the call (`defer s.capMu.Unlock()`, no explicit unlock) -/
+  expiredHoldsCapMu : Tri
+  /-- SelectExpiredForPatchWithCap: count, `budget := capMax - currentMatching`, selection bounded by it,
+      all under one `b.mu.Lock()` -/
+  expiredSelectWithinBudget : Tri
+  /-- ShiftMatching counts and selects under one `b.mu.Lock()`; CloneAndDeleteMatchingTreasures holds capMu -/
   shiftCountsUnderLock : Tri
   deriving Repr
 
 def structural (f : Facts) : Bool :=
   f.unlockDeferred.isYes && f.budgetFromCount.isYes && f.fourCellNoYes.isYes &&
-  f.patchExpiredLocksFirst.isYes && f.shiftCountsUnderLock.isYes
+  f.patchExpiredLocksFirst.isYes && f.expiredSelectWithinBudget.isYes && f.shiftCountsUnderLock.isYes
+
+def triBool : Tri → Option Bool
+  | .yes => some true | .no => some false | .unknown => none
 
 def classify (f : Facts) : Verdict :=
   if !structural f then .undetermined "the cap path no longer has the modelled shape" else
-  match f.countAfterLock with
-  | .yes => .holds
-  | .no => .violated ["C12-count-before-capmu"]
-  | .unknown => .undetermined "cap.countAfterLock"
+  match triBool f.countAfterLock, triBool f.createPreFalse, triBool f.expiredHoldsCapMu with
+  | some true, some true, some true => .holds
+  | some a, some c, some e =>
+    .violated ((if a then [] else ["C12-count-before-capmu"]) ++ (if c then [] else ["C12-create-counts-as-prematched"]) ++
+               (if e then [] else ["C12-patchexpired-releases-capmu-early"]))
+  | _, _, _ => .undetermined "cap.countAfterLock / cap.createPreFalse / cap.expiredHoldsCapMu"
 
-def cfgOf (f : Facts) : Cfg := { countAfterLock := f.countAfterLock.isYes }
+def cfgOf (f : Facts) : Cfg :=
+  { countAfterLock := (triBool f.countAfterLock).getD false, createPreFalse := (triBool f.createPreFalse).getD false,
+    expiredHoldsCapMu := (triBool f.expiredHoldsCapMu).getD false }
 
 theorem classify_sound (f : Facts) : (classify f).Sound (Holds (cfgOf f)) := by
   unfold classify
   split
   · simp [Verdict.Sound]
-  · cases hc : f.countAfterLock <;> simp only [Verdict.Sound, cfgOf, hc, Tri.isYes]
-    · exact holds_good
-    · exact ⟨refutes_current, trivial⟩
+  · cases ha : triBool f.countAfterLock with
+    | none => simp [Verdict.Sound]
+    | some a =>
+      cases hc : triBool f.createPreFalse with
+      | none => simp [Verdict.Sound]
+      | some c =>
+        cases he : triBool f.expiredHoldsCapMu with
+        | none => simp [Verdict.Sound]
+        | some e =>
+          cases a <;> cases c <;> cases e <;> simp only [Verdict.Sound, cfgOf, ha, hc, he, Option.getD]
+          · exact ⟨refutes_countFirst _ _, trivial⟩
+          · exact ⟨refutes_countFirst _ _, trivial⟩
+          · exact ⟨refutes_countFirst _ _, trivial⟩
+          · exact ⟨refutes_countFirst _ _, trivial⟩
+          · exact ⟨refutes_createFromSeed _ _, trivial⟩
+          · exact ⟨refutes_createFromSeed _ _, trivial⟩
+          · exact ⟨refutes_expiredEarlyUnlock _ _, trivial⟩
+          · exact holds_good
 
 end Hv.C12
